@@ -10,7 +10,7 @@ point of a task's life, thread-schedule perturbation and targeted delay points.
 import os
 import shutil
 
-from ..core    import Result, digest
+from ..core    import Result, digest, pid_space_small
 from ..harness import rp, ru, rps, rpc
 from ..popsim  import ExecSim, gen_case, TARGETS
 
@@ -131,7 +131,10 @@ def judge(sim, rec, res, case):
                         res.count('signal_endings_judged')
                         exp = (rps.FAILED, ec if ec not in (0, None) else
                                            'non-zero')
-                    if (ts, ec) != exp:
+                    if (ts, ec) != exp and ec in (-9, -15) and \
+                            spec['ending'] != 'signal' and pid_space_small():
+                        res.count('possible_pid_reuse_not_judged')
+                    elif (ts, ec) != exp:
                         viol('outcome-untruthful', '%s: got %s/%s, process '
                              'ended %s' % (uid, ts, ec, exp))
                 if spec['poison']:
@@ -206,6 +209,20 @@ def run_case(ctx, res, case, idx=0):
         shutil.rmtree(wd, ignore_errors=True)
 
 
+def burst_case(rng):
+    n = rng.choice([110, 130, 230])
+    tasks = [{'uid': 't.%d' % i, 'ending': rng.choice(['ok', 'ok', 'exit']),
+              'dur': rng.choice([0, 0, 0.05]), 'code': 3, 'sig': 'TERM',
+              'cancel': None, 'cancel_at': None, 'timeout': 0.0,
+              'poison': None, 'bulk': 0} for i in range(n)]
+    for t in tasks:
+        if t['ending'] != 'exit':
+            t['code'] = 0
+    return {'seed': rng.randint(0, 2 ** 30), 'spawner': 'POPEN',
+            'tasks': tasks, 'perturb': 0.0, 'target': None,
+            'target_delay': 0.0, 'switch': None, 'kind': 'burst'}
+
+
 def run(ctx):
     res = Result()
     rng = ctx.rng('exec')
@@ -213,6 +230,11 @@ def run(ctx):
     for i in range(n):
         spawner = 'NOOP' if i % 8 == 7 else 'POPEN'
         case = gen_case(rng, spawner)
+        if i == 1 or (not ctx.quick and i % 400 == 1):
+            # a burst: more tasks at once than the watcher takes over per pass
+            # (its bulk limit is crossed), all ending at about the same time
+            case = burst_case(rng)
+            res.count('burst_histories')
         run_case(ctx, res, case, i)
         if len(res.violations) > 40:
             break
